@@ -39,6 +39,7 @@ func genRestoreSrc() {
 			"r.lines = []int{0}",
 			"r.nodeDecl = map[*ast.Object]dst.Node{}",
 			"r.nodeData = map[*ast.Object]dst.Node{}",
+			"r.deferred = nil",
 			"r.packageNames = map[string]string{}",
 			"r.comments = []*ast.CommentGroup{}",
 			"r.cursorAtNewLine = 0",
